@@ -1,6 +1,6 @@
 //! C05 — rule optimisation never changes any verdict.
 //! BX: lists over an alphabet whose rules share one bucket and differ in exactly one
-//! fusion-relevant attribute x tag subsets x URLs; three real subjects per list: built with
+//! fusion-relevant attribute x tag subsets x URLs; four real subjects per list: built with
 //! optimisation, built without, and built without followed by the explicit `optimize()` on the
 //! live blocker (twice). Differential oracle on every verdict field + CSP set. DESIGN §4 C05.
 
@@ -120,23 +120,28 @@ fn check_list(rules: &[&str], reqs: &[Req], res: &ResourceStorage, l: &mut Local
     let mut live = blocker(rules, false);
     live.optimize();
     live.optimize();
-    l.states += 3;
+    // optimize() called after every tag switch (the tagged list is rebuilt, unfused, by use_tags)
+    let mut live2 = blocker(rules, false);
+    l.states += 4;
     let tags_present = vh::alpha::tags_in(rules);
     for tagset in subsets_of(&tags_present) {
         let tagrefs: Vec<&str> = tagset.iter().map(|s| s.as_str()).collect();
         plain.use_tags(&tagrefs);
         opt.use_tags(&tagrefs);
         live.use_tags(&tagrefs);
+        live2.use_tags(&tagrefs);
+        live2.optimize();
         for rq in reqs {
             l.evaluations += 1;
-            l.transitions += 3;
+            l.transitions += 4;
             let a = ask(&plain, res, rq);
             let b = ask(&opt, res, rq);
             let c = ask(&live, res, rq);
-            let (a, b, c) = match (a, b, c) {
-                (Ok(a), Ok(b), Ok(c)) => (a, b, c),
-                (a, b, c) => {
-                    let loc = a.err().or(b.err()).or(c.err()).unwrap_or_default();
+            let d = ask(&live2, res, rq);
+            let (a, b, c, d) = match (a, b, c, d) {
+                (Ok(a), Ok(b), Ok(c), Ok(d)) => (a, b, c, d),
+                (a, b, c, d) => {
+                    let loc = a.err().or(b.err()).or(c.err()).or(d.err()).unwrap_or_default();
                     l.mismatch(Mismatch {
                         sig: format!("c05.panic@{}", loc),
                         what: format!("panic with rules {:?}", rules),
@@ -146,12 +151,12 @@ fn check_list(rules: &[&str], reqs: &[Req], res: &ResourceStorage, l: &mut Local
                     continue;
                 }
             };
-            l.compared += 2;
+            l.compared += 3;
             if a.0.matched || a.0.exception || a.0.redirect.is_some() || a.0.rewritten.is_some() || a.1.is_some() {
                 l.nontrivial += 1;
                 l.hist(&format!("{}{}", a.0.short(), if a.1.is_some() { "C" } else { "-" }));
             }
-            for (name, other) in [("optimized-at-build", &b), ("optimize()-on-live-blocker", &c)] {
+            for (name, other) in [("optimized-at-build", &b), ("optimize()-on-live-blocker", &c), ("optimize()-after-each-use_tags", &d)] {
                 if let Some(field) = diff(&a, other) {
                     l.mismatch(Mismatch {
                         sig: classify(rules, field),
@@ -221,7 +226,7 @@ fn check(ctx: &Ctx) -> i32 {
         nth_arrangement(i, n as u64, &mut idx);
         let rules: Vec<&str> = idx.iter().map(|&j| POOL[j]).collect();
         if l.samples.len() < 2 && (i + ctx.seed) % 211 == 9 {
-            l.samples.push(json!({"rules": rules, "requests": reqs.len(), "subjects": ["optimize=false", "optimize=true", "optimize=false + optimize() x2"]}));
+            l.samples.push(json!({"rules": rules, "requests": reqs.len(), "subjects": ["optimize=false", "optimize=true", "optimize=false + optimize() x2", "optimize=false + optimize() after every use_tags"]}));
         }
         check_list(&rules, &reqs, &res, l);
     });
@@ -234,7 +239,7 @@ fn check(ctx: &Ctx) -> i32 {
     });
     ctx.finish(
         "model_checking",
-        "all ordered lists of <= k rules and all k'-element subsets of the rule alphabet (rules that share the wildcard / 'adv*' buckets and differ in one fusion-relevant attribute: pattern, exception, important, tag, type, party, anchors, regex, match-case, hostname, domain, redirect, csp, removeparam); three real blockers per list (built optimised, built unoptimised, unoptimised + optimize() twice), under every tag subset, against the request universe; all verdict fields and the CSP set must agree; non-trivial = the unoptimised engine reports anything",
+        "all ordered lists of <= k rules and all k'-element subsets of the rule alphabet (rules that share the wildcard / 'adv*' buckets and differ in one fusion-relevant attribute: pattern, exception, important, tag, type, party, anchors, regex, match-case, hostname, domain, redirect, csp, removeparam); four real blockers per list (built optimised, built unoptimised, unoptimised + optimize() twice, unoptimised + optimize() after every tag switch), under every tag subset, against the request universe; all verdict fields and the CSP set must agree; non-trivial = the unoptimised engine reports anything",
         &["differential: the unoptimised engine is the reference (its own correctness is C01's subject)"],
     )
 }
